@@ -25,6 +25,14 @@ def build_world(contract_module_names, source_modules):
             if em not in contract_module_names:
                 contract_module_names = list(contract_module_names) + [em]
                 w.add_source_module(em)
+    # spec functions imported from other contract modules are interpreted from their own source
+    import types as _types
+    for m in list(contract_module_names):
+        cm = importlib.import_module(m)
+        for v in list(vars(cm).values()):
+            if isinstance(v, _types.FunctionType) and v.__module__.startswith('contracts.') \
+                    and v.__module__ not in w.sources:
+                w.add_source_module(v.__module__)
     for m in contract_module_names:
         cm = importlib.import_module(m)
         if hasattr(cm, 'lib_models'):
